@@ -106,9 +106,11 @@ func checkC18(w *World, r *Report) {
 	r.Rule("C18.sites", "P4", "every typed-event emission of the custom modules is enumerated; event types carrying an Amount are bound to a value-identity obligation", 8)
 	r.Rule("C18.amount", "P6", "the Amount of an event has the origin of the effect it describes: Mint <- result of Keeper.Mint; Distribution/DistributionBurn <- the share credited in the same iteration; WithdrawAvailable <- the per-pool value added to Withdrawn (not a running total); NewVestingAccountFromVestingPool <- the value added to Sent; NewVestingPool <- the amount passed to pool creation", 6)
 	r.Rule("C18.guard", "P5", "amount-carrying events are recorded only when the described effect happened: per-pool withdrawal events only under a positivity test of that pool's own value; creation events only on the success edge of the operation", 4)
+	r.Rule("C18.total", "P6", "= C02.carry (last clause): the amount the minting routine reports for a block - which the mint event carries - loses no term: every successful return carries this period's amount and what was handed in, and after a hand-over also what the successor returned", 1)
 	if !ro.checkFloors(r) {
 		return
 	}
+	mintTotalRule(w, r, "C18.total")
 	withAmount := map[string]bool{}
 	for _, f := range w.ProdFuncs() {
 		for _, s := range cg.Sites[f] {
